@@ -351,17 +351,12 @@ def validate(seed, tier):
     t1 = dict(istart=0, root=dict(qnum=0, children=[dict(oid=1, coeff=0.5, node=dict(qnum=0, children=[dict(oid=1, coeff=2.0, node=leaf())])),
                                                     dict(oid=0, coeff=-1.0, node=leaf())]))
     t2 = dict(istart=1, root=dict(qnum=0, children=[dict(oid=1, coeff=3.0, node=leaf())]))
-    f = concrete.CHECKS['optrees'](dict(L=3, trees=[t1, t2]))
-    if f:
-        raise runner.HarnessError(f'concrete tree check fails on the unchanged tree: {f}')
+    runner.concrete_check('optrees', dict(L=3, trees=[t1, t2]))
     aut = dict(L=3, nn=3, term=[0, 1], qnums=[0, 0, 0], edges=[
         dict(a=0, b=0, act='true', site_dep=False, opics=[[[0, 1.0]]] * 3), dict(a=1, b=1, act='true', site_dep=False, opics=[[[0, 1.0]]] * 3),
         dict(a=0, b=2, act='true', site_dep=False, opics=[[[1, 0.7]]] * 3), dict(a=2, b=1, act='not_first', site_dep=False, opics=[[[1, 1.0]]] * 3),
         dict(a=0, b=1, act='true', site_dep=True, opics=[[[1, 0.1]], [[1, 0.2]], [[1, 0.3]]])])
-    f = concrete.CHECKS['automaton'](aut)
-    if f:
-        raise runner.HarnessError(f'concrete automaton check fails on the unchanged tree: {f}')
-    return dict(concrete_inputs_checked=2)
+    runner.concrete_check('automaton', aut)
 
 
 def evidence(tier, seed, total, per_task, val):
